@@ -321,17 +321,22 @@ class Dyn(object):
         fname = f.__code__.co_name
         own = set(f.__code__.co_varnames) | set(f.__code__.co_cellvars)
         self.locals = own
-        nested = {}
+        nested = {}       # code name -> [(set of lines, code)]: a local function may be re-defined under the same name
         todo = [f.__code__]
         while todo:
             c = todo.pop()
             for k in c.co_consts:
                 if hasattr(k, 'co_code'):
-                    if k.co_name in nested or k.co_name == fname:
+                    if k.co_name == fname:
                         return      # ambiguous code names
-                    nested[k.co_name] = k
+                    lines = set(l for _, _, l in k.co_lines() if l is not None) | {k.co_firstlineno}
+                    nested.setdefault(k.co_name, []).append((lines, k))
                     todo.append(k)
         self.nested = nested
+
+        def code_at(name, line):
+            cands = [k for lines, k in nested[name] if line in lines]
+            return cands[0] if len(cands) == 1 else None
         ev = []           # (op, var, owner, line) or ('line', lineno) / ('gap', lineno)
         inst = []
         # synthetic first instance: parameter binding at the args node
@@ -381,7 +386,10 @@ class Dyn(object):
                     if e[3] in own:
                         ev.append((e[0], e[3], None, e[2]))
                 elif e[1] in nested:
-                    if e[3] in nested[e[1]].co_freevars and e[3] in own:
+                    k = code_at(e[1], e[2])
+                    if k is None:
+                        return
+                    if e[3] in k.co_freevars and e[3] in own:
                         ev.append((e[0], e[3], e[1], e[2]))
                 else:
                     return
@@ -708,6 +716,178 @@ class ClosureGen(_progs.Gen):
         return _progs.Gen.stmt(self, ind, defined, depth, in_loop, ihf)
 
 
+class EscapeGen(_progs.Gen):
+    """Local functions whose objects escape their name: aliased (`h = g`), stored in a container (`cb = [g]`),
+    re-defined under the same name, called through sibling closures / two-hop chains, with the captured variable
+    assigned inside an if / while before the (indirect) call."""
+
+    def __init__(self, rnd, opts):
+        _progs.Gen.__init__(self, rnd, opts)
+        self.calls = []      # [call expression, name that must be bound, set of names that must be bound at the call]
+
+    def plain(self, defined):
+        return set(v for v in defined if v in self.vars or v in _progs.PARAMS)
+
+    def reads(self, defined, maxn=2):
+        return [v for v in _progs.Gen.reads(self, defined, maxn) if v in self.vars or v in _progs.PARAMS]
+
+    def emit_def(self, ind, name, plain, callee=None, captures=True):
+        r = self.r
+        self.emit(ind, 'def %s():' % name)
+        need = set()
+        cand = [v for v in sorted(plain) if v in self.vars]
+        nl = [v for v in cand if r.random() < 0.4][:1] if (captures and r.random() < 0.4) else []
+        if nl:
+            self.emit(ind + 1, 'nonlocal %s' % ', '.join(nl))
+            if r.random() < 0.5:
+                need.add(nl[0])
+                self.emit(ind + 1, '%s += T(%d)' % (nl[0], self.key()))
+            else:
+                self.emit(ind + 1, '%s = T(%d)' % (nl[0], self.key()))
+        rd = ([v for v in sorted(plain) if r.random() < 0.5][:2] or sorted(plain)[:1]) if captures else []
+        need |= set(rd)
+        args = ''.join(', ' + v for v in rd)
+        if callee is not None:
+            self.emit(ind + 1, 'T(%d%s)' % (self.key(), args))
+            self.emit(ind + 1, 'return %s' % callee[0])
+            need |= callee[2] | {callee[1]}
+        else:
+            self.emit(ind + 1, 'return T(%d%s)' % (self.key(), args))
+        return need
+
+    def bind_def(self, name, need):
+        """`def name` executed: the name now calls the new function (on some path: keep the old requirements too);
+        everything that calls through the name inherits the new requirements"""
+        for c in self.calls:
+            if c[1] == name and c[0] == name + '()':
+                c[2] |= need
+                break
+        else:
+            self.calls.append([name + '()', name, set(need)])
+        for c in self.calls:
+            if name in c[2]:
+                c[2] |= need
+
+    def escape(self, ind, entry):
+        r = self.r
+        if r.random() < 0.6:
+            h = 'h%d' % self.key()
+            self.emit(ind, '%s = %s' % (h, entry[1]))
+            e = [h + '()', h, set(entry[2])]
+        else:
+            h = 'cb%d' % self.key()
+            self.emit(ind, '%s = [%s]' % (h, entry[1]))
+            e = [h + '[0]()', h, set(entry[2])]
+        self.calls.append(e)
+        return e
+
+    def assign_captured(self, ind, defined, v):
+        r = self.r
+        kind = r.random()
+        if kind < 0.6:
+            self.emit(ind, 'if %s:' % self.dexpr(self.plain(defined)))
+            self.emit(ind + 1, '%s = %s' % (v, self.texpr(self.plain(defined))))
+            if r.random() < 0.3:
+                self.emit(ind, 'else:')
+                self.emit(ind + 1, '%s = %s' % (r.choice(self.vars), self.texpr(self.plain(defined))))
+        elif kind < 0.85:
+            self.emit(ind, 'while %s:' % self.dexpr(self.plain(defined)))
+            self.emit(ind + 1, '%s = %s' % (v, self.texpr(self.plain(defined))))
+            if r.random() < 0.4:
+                self.emit(ind + 1, 'break')
+        else:
+            self.emit(ind, 'for %s in L(%d):' % (r.choice([u for u in self.vars if u != v]), self.key()))
+            self.emit(ind + 1, '%s = %s' % (v, self.texpr(self.plain(defined))))
+
+    def call(self, ind, defined, entry):
+        if self.r.random() < 0.5:
+            self.emit(ind, entry[0])
+            return defined
+        v = self.r.choice(self.vars)
+        self.emit(ind, '%s = %s' % (v, entry[0]))
+        return defined | {v}
+
+    def stmt(self, ind, defined, depth, in_loop, ihf):
+        r = self.r
+        x = r.random()
+        plain = self.plain(defined)
+        fn_names = [c for c in self.calls if c[0] == c[1] + '()' and c[1].startswith('g') and c[1] in defined]
+        callable_now = [c for c in self.calls if c[1] in defined and c[2] <= defined]
+        if x < 0.22 and depth < 2 and [v for v in plain if v in self.vars]:
+            # the whole scenario in one go: def, escape, [re-def], [sibling / hop], control statement, indirect call
+            self.budget -= 4
+            name = 'g%d' % self.key()
+            need = self.emit_def(ind, name, plain)
+            self.bind_def(name, need)
+            defined = defined | {name}
+            target = self.escape(ind, [name + '()', name, need])
+            defined = defined | {target[1]}
+            if r.random() < 0.6:
+                need2 = self.emit_def(ind, name, plain, captures=r.random() < 0.3)
+                self.bind_def(name, need2)
+            for _ in range(r.choice([0, 0, 1, 2])):
+                sib = 'g%d' % self.key()
+                n2 = self.emit_def(ind, sib, plain, callee=target, captures=r.random() < 0.5)
+                self.bind_def(sib, n2)
+                defined = defined | {sib}
+                target = [c for c in self.calls if c[1] == sib][0]
+            cap = sorted(v for v in target[2] if v in self.vars)
+            if cap:
+                self.assign_captured(ind, defined, r.choice(cap))
+            if target[2] <= defined:
+                defined = self.call(ind, defined, target)
+            return defined, True
+        if x < 0.30 and depth < 3 and plain:
+            self.budget -= 1
+            name = 'g%d' % self.key()
+            need = self.emit_def(ind, name, plain)
+            self.bind_def(name, need)
+            return defined | {name}, True
+        if x < 0.36 and depth < 3 and callable_now:
+            self.budget -= 1
+            name = 'g%d' % self.key()
+            need = self.emit_def(ind, name, plain, callee=r.choice(callable_now), captures=r.random() < 0.5)
+            self.bind_def(name, need)
+            return defined | {name}, True
+        if x < 0.43 and fn_names:
+            self.budget -= 1
+            e = self.escape(ind, r.choice(fn_names))
+            return defined | {e[1]}, True
+        if x < 0.49 and fn_names and depth < 3:
+            self.budget -= 1
+            c = r.choice(fn_names)
+            need = self.emit_def(ind, c[1], plain, captures=r.random() < 0.3)
+            self.bind_def(c[1], need)
+            return defined, True
+        if x < 0.57 and callable_now:
+            c = r.choice(callable_now)
+            cap = sorted(v for v in c[2] if v in self.vars)
+            if cap:
+                self.budget -= 2
+                self.assign_captured(ind, defined, r.choice(cap))
+                return defined, True
+        if x < 0.72 and callable_now:
+            self.budget -= 1
+            return self.call(ind, defined, r.choice(callable_now)), True
+        return _progs.Gen.stmt(self, ind, defined, depth, in_loop, ihf)
+
+
+def gen_escape_function(rnd, opts):
+    g = EscapeGen(rnd, opts)
+    g.emit(0, 'def f(%s):' % ', '.join(_progs.PARAMS))
+    defined = set(_progs.PARAMS)
+    for v in rnd.sample(g.vars, 2):
+        g.emit(1, '%s = %s' % (v, g.texpr(defined)))
+        defined.add(v)
+    defined = g.block(1, defined, 0, False, False, minlen=4)
+    callable_now = [c for c in g.calls if c[1] in defined and c[2] <= defined]
+    if callable_now and rnd.random() < 0.8:
+        g.emit(1, 'return %s' % rnd.choice(callable_now)[0])
+    elif rnd.random() < 0.8:
+        g.emit(1, 'return %s' % g.texpr(g.plain(defined)))
+    return '\n'.join(g.lines) + '\n'
+
+
 def gen_closure_function(rnd, opts):
     g = ClosureGen(rnd, opts)
     g.emit(0, 'def f(%s):' % ', '.join(_progs.PARAMS))
@@ -792,18 +972,50 @@ def stmt_annos(an, fi, nt):
     return out
 
 
+def defs_reaching(fi):
+    """S: label -> [FunctionDef nodes of this function whose def statement has a graph path to the label]"""
+    succ = {}
+    for a, b in fi.edges:
+        succ.setdefault(a, []).append(b)
+    out = {}
+    live = set()
+    todo = [fi.entry]
+    while todo:
+        m = todo.pop()
+        if m in live or m == 0:
+            continue
+        live.add(m)
+        todo.extend(succ.get(m, ()))
+    for l, node in fi.nodes.items():
+        if isinstance(node.ast_node, ast.FunctionDef) and l in live:     # a def in dead code never executes
+            seen = set()
+            todo = list(succ.get(l, ()))
+            while todo:
+                m = todo.pop()
+                if m in seen or m == 0:
+                    continue
+                seen.add(m)
+                todo.extend(succ.get(m, ()))
+            for m in seen:
+                out.setdefault(m, []).append(node.ast_node)
+    return out
+
+
 def lv_case(an, fi, idx):
     nt = Names()
     eff = py_effects(fi)
+    sreach = defs_reaching(fi)
     rows = []
     fnrows = []
     for l, node in sorted(fi.nodes.items()):
         sc = an.node_scope(node)
         fns = an.reaching_fns(node)
         cread, cread_nl = set(), set()
-        # S: a local function can only run during a node that performs a call
+        # S: a local function can only run during a node that performs a call; it may be any function whose def
+        # statement lies on a graph path to this node (the object may have been aliased / stored / passed on, so
+        # a later def of the same name does not end its life) -- computed from the graph, not from DEFINED_FNS_IN
         calls = fi.sk.kind[l] != 'args' and any(isinstance(x, ast.Call) for x in _own_nodes(node.ast_node))
-        for is_l, _, d in fns:
+        for is_l, d in [(False, dn) for dn in sreach.get(l, ())]:
             if not is_l and calls:
                 a, b = fn_free_reads(d)
                 cread |= set(a)
@@ -908,8 +1120,10 @@ def program_stream(rnd, it):
         return 'main', _progs.gen_function(rnd, _progs.Opts(reads='safe', nested_def=True, max_stmts=14))
     if k < 10:
         return 'delete', _progs.gen_function(rnd, _progs.Opts(reads='safe', nested_def=True, delete=True, max_stmts=12))
-    if k < 17:
-        return 'closure', gen_closure_function(rnd, _progs.Opts(reads='safe', max_stmts=14, raise_=(k == 16)))
+    if k < 13:
+        return 'closure', gen_closure_function(rnd, _progs.Opts(reads='safe', max_stmts=14, raise_=(k == 12)))
+    if k < 18:
+        return 'escape', gen_escape_function(rnd, _progs.Opts(reads='safe', max_stmts=16, max_depth=2, raise_=False, try_=(k == 17), with_=False))
     return 'any', _progs.gen_function(rnd, _progs.Opts(reads='any', max_stmts=10))
 
 
@@ -946,7 +1160,7 @@ def check_property(run, kind, generate):
     vlib.standard_proof_step(run, [check_vo])
     run.rule = ('seeded random functions (tools/gen/progs.py + closure extension tools/export/flow.py: assign/aug/tuple/del/if/while/'
                 'for(+else)/break/continue/return/raise/try-except-else-finally/with-as/nested def reading enclosing variables and '
-                'declaring nonlocal, called at later points; reads only of definitely bound names, plus a stream with maybe-unbound '
+                'declaring nonlocal, called at later points, aliased / stored in a list / re-defined under the same name / called through sibling closures and two-hop chains after if/while/for statements assigning the captured variable; reads only of definitely bound names, plus a stream with maybe-unbound '
                 'reads) x decision vectors driving every test / trip count (0..3) / handler; corpus first; non-trivial = program with a '
                 'loop, try or local function; distinct by source text')
     rnd = random.Random(run.seed * 7919 + (6 if kind == 'rd' else 7))
